@@ -73,7 +73,7 @@ Definition text2logclass (t : string) : lclass := text2class_loop (S text2class_
 
 Definition bitset := list bool.
 Definition bs_set (b : bitset) (i : nat) : res bitset :=
-  if i <? List.length b then Ok (firstn i b ++ true :: skipn (S i) b) else Err EOutOfRange.
+  if i <? List.length b then Ok (firstn i b ++ true :: skipn (i + 1) b) else Err EOutOfRange.
 Definition bs_test (b : bitset) (i : nat) : res bool :=
   if i <? List.length b then Ok (nth i b false) else Fault OOBRead.
 Definition bs_none (b : bitset) : bool := negb (existsb (fun x => x) b).
